@@ -1176,9 +1176,15 @@ class Engine:
                         if not uidx:
                             uidx, _ = self.inflight_unspecified(rec, ob["lo"], ob["hi"])
                         exp = [(i, d) for i, d in exp if i not in uidx]
-                    if self.fail_idx_now and rec.spec.get("count_only"):
+                    if rec.spec.get("count_only"):
+                        # an overridable probe is handed the value about to be bound, which another
+                        # overrider may replace: how *many* events it gets is what is stated
                         rec.exp_all.extend((self.opi, d) for d in got)
-                        continue  # (an overrider struck by a failure: its own event is not in the trace)
+                        n_opt = sum(1 for i, _ in exp if i in optional)
+                        if not self.fail_idx_now and not (len(exp) - n_opt <= len(got) <= len(exp)):
+                            self.violate(self.stream_inv(rec), {"probe": rec.id, "sel": rec.strs,
+                                                                "expected number of events": len(exp), "got": got})
+                        continue  # (struck by a failure: an overrider's own event is not in the trace)
                     if optional:
                         # the events of the very binding / exit at which the failure struck: which
                         # probes had been served before it struck is not specified
@@ -1186,13 +1192,6 @@ class Engine:
                         self.compare_stream(self.stream_inv(rec), rec, exp, got, optional=optional)
                         continue
                     rec.exp_all.extend((self.opi, d) for _, d in exp)
-                    if rec.spec.get("count_only"):
-                        # an overridable probe is handed the value about to be bound, which another
-                        # overrider may replace: how *many* events it gets is what is stated
-                        if len(got) != len(exp):
-                            self.violate(self.stream_inv(rec), {"probe": rec.id, "sel": rec.strs,
-                                                                "expected number of events": len(exp), "got": got})
-                        continue
                     self.compare_stream(self.stream_inv(rec), rec, exp, got)
                 elif got and not rec.active:
                     self.violate(
